@@ -11,6 +11,7 @@ import (
 	"github.com/jwhited/corebgp"
 
 	"corebgpverif/harness"
+	"corebgpverif/vnet"
 	"corebgpverif/vrt"
 	"corebgpverif/world"
 )
@@ -69,6 +70,20 @@ func hold0Twin(s *Scn) *Scn {
 	return &t
 }
 
+// opaqueTwin runs the same scenario on a network whose connections reach corebgp wrapped in a plain net.Conn,
+// as they do behind a listener or dialer of the user's own (Serve takes any net.Listener): nothing corebgp
+// promises may depend on the connection being a *net.TCPConn.
+func opaqueTwin(s *Scn) *Scn {
+	t := *s
+	t.Name = s.Name + "@opaque"
+	t.Run = func(ch vrt.Chooser, trace bool) *ScnResult {
+		vnet.OpaqueDefault = true
+		defer func() { vnet.OpaqueDefault = false }()
+		return s.Run(ch, trace)
+	}
+	return &t
+}
+
 // withHold0 appends the hold-0 twin of every every-th scenario.
 func withHold0(scns []*Scn, every int) []*Scn {
 	out := scns
@@ -90,6 +105,8 @@ func twinOf(s *Scn, suffix string) *Scn {
 		return legacyTwin(s)
 	case suffix == "hold0":
 		return hold0Twin(s)
+	case suffix == "opaque":
+		return opaqueTwin(s)
 	case strings.HasPrefix(suffix, "slow:"):
 		var kind string
 		var n, ms int
